@@ -198,7 +198,8 @@ class History:
         t = self.tables[i]
         T = "T%d" % i
         op = r.choice(["put"] * 10 + ["get", "get", "in", "getd", "ind", "rawget", "length", "clear", "clone", "setproto", "getproto",
-                                      "tostruct", "mergeinto", "merge", "flatten", "putburst", "removeburst", "structtable", "tablenew"])
+                                      "tostruct", "mergeinto", "merge", "flatten", "putburst", "removeburst", "structtable", "tablenew",
+                                      "structbuild", "structbuild", "structperm", "structperm"])
         if op == "put":
             k, v = gen_key(r), gen_val(r)
             def f():
@@ -265,6 +266,27 @@ class History:
             self.add("(table/setproto %s %s)" % (T, "T%d" % j if j is not None else "nil"), f, "table/setproto")
         elif op == "getproto":
             self.add("(table/getproto %s)" % T, lambda: t.proto.desc() if t.proto else None, "table/getproto")
+        elif op == "structbuild":
+            # struct constructor as a finite map: later pairs win, pairs with a nil / NaN key or a nil value are ignored
+            pairs = [(r.randrange(0, 64) if r.random() < 0.7 else gen_key(r), gen_val(r)) for _ in range(r.randrange(0, 9))]
+            def f():
+                m = MTable()
+                for k, v in pairs:
+                    if v is not None:
+                        m.put(k, v)
+                return m.sdesc()
+            self.add("(struct %s)" % " ".join("%s %s" % (emit(k), emit(v)) for k, v in pairs), f, "struct")
+        elif op == "structperm":
+            # the same distinct pairs in two orders: equal, same hash, same length
+            ks = r.sample(range(0, 64), r.randrange(2, 8))
+            pairs = [(k, r.choice(VALS)) for k in ks]
+            perm = pairs[:]
+            r.shuffle(perm)
+            def f():
+                return Tup([True, True, len(pairs), len(pairs), True])
+            a = " ".join("%s %s" % (emit(k), emit(v)) for k, v in pairs)
+            b = " ".join("%s %s" % (emit(k), emit(v)) for k, v in perm)
+            self.add("(let [a (struct %s) b (struct %s)] [(= a b) (= (hash a) (hash b)) (length a) (length b) (= 0 (compare a b))])" % (a, b), f, "struct-order")
         elif op == "tostruct":
             self.add("(table/to-struct %s)" % T, lambda: t.sdesc(), "table/to-struct")
         elif op == "structtable":
